@@ -75,11 +75,21 @@ func newWSHandler(host string, dial dialFunc, conn gkm.Gauge) http.Handler {
 			return
 		}
 
-		n, err := out.Read(b)
-		if err != nil {
-			log.Printf("[ERROR] Error reading handshake for %s: %s", r.URL, err)
-			http.Error(w, "error reading handshake", http.StatusInternalServerError)
-			return
+		// The status line may arrive in several segments: keep reading while
+		// what has arrived is only the beginning of "HTTP/1.1 101".
+		want := []byte("HTTP/1.1 101")
+		n := 0
+		for n < len(want) && bytes.HasPrefix(want, b[:n]) {
+			m, err := out.Read(b[n:])
+			n += m
+			if err != nil {
+				if n > 0 {
+					break // pass on what the upstream has sent
+				}
+				log.Printf("[ERROR] Error reading handshake for %s: %s", r.URL, err)
+				http.Error(w, "error reading handshake", http.StatusInternalServerError)
+				return
+			}
 		}
 
 		b = b[:n]
@@ -87,7 +97,7 @@ func newWSHandler(host string, dial dialFunc, conn gkm.Gauge) http.Handler {
 
 		// https://tools.ietf.org/html/rfc6455#section-1.3
 		// The websocket server must respond with HTTP/1.1 101 on successful handshake
-		if !bytes.HasPrefix(b, []byte("HTTP/1.1 101")) {
+		if !bytes.HasPrefix(b, want) {
 			firstLine := strings.SplitN(string(b), "\n", 2)[0]
 			log.Printf("[INFO] Websocket upgrade failed for %s: %s", r.URL, strings.TrimSpace(firstLine))
 			// The upstream answered with an ordinary HTTP response of which
